@@ -22,6 +22,12 @@ ANCHOR_FILES = ['droop/election.py', 'droop/rules/wigm.py', 'droop/rules/wigm_pr
                 'droop/rules/qpq.py']
 
 
+def odd_names(rng, s):
+    "a name is data: a percent sign, a brace or one of the package's own words in it must not stop a count (one case in eight)"
+    if rng.random() < 0.125:
+        s['names'] = gen.hostile_names(rng, s['nc'], repeats=rng.random() < 0.3)
+
+
 def undeclared_of(run):
     "the write-ins as the ballot file lists them (every [undeclared ...] item of the canonical text), not as the package read them"
     if run.blt is None:
@@ -164,7 +170,7 @@ def shard(ctx):
             case = stream.make_case(ctx, rng, dict(G11=1), rules=['meek-prf', 'meek-prf', 'meek-prf', 'meek', 'warren'], allow_eq=False)
             ctx.count('meek_family_mid_electorates')
         else:
-            case = stream.make_case(ctx, rng, WEIGHTS, meek_rational=True)
+            case = stream.make_case(ctx, rng, WEIGHTS, meek_rational=True, mutate_s=odd_names)
         run, opts = case.run, case.opts
         ctx.evaluated()
         if run.error is not None and run.phase == 'profile':
